@@ -549,3 +549,76 @@ func VerifC01HoldAndCancel(hold int) {
 	}
 	verifReach("drained")
 }
+
+// VerifC02LateFinish: request 0's load FAILS (it is answered with the error); its context ends only
+// later - after request 1 for the same model has been given a fresh runner and is using it. The late
+// end of a request that never got a runner must not be charged to the runner of another request.
+func VerifC02LateFinish() {
+	vfNumGPU = 1
+	vfServers, vfMaxRunners = nil, 1
+	vfUnloadClients, vfEarlyCancel, vfUseGPU = false, false, false
+	vfDrain = make(chan struct{})
+	vfReplies = make([]int, 2)
+	vfGot, vfGotBig, vfGotKA, vfPingFailed = make([]*vfSrv, 2), make([]bool, 2), make([]int, 2), false
+	vfCancelled = make([]bool, 2)
+	envconfig.MaxRunners = func() uint { return 1 }
+	envconfig.MaxQueue = func() uint { return 4 }
+	envconfig.NumParallel = func() uint { return 1 }
+	envconfig.SchedSpread = func() bool { return false }
+	ctx := newVfCtx()
+	s := InitScheduler(ctx)
+	s.newServerFn = vfNewServer
+	s.getCpuFn = func() discover.GpuInfoList {
+		l := discover.GpuInfoList{{Library: "cpu"}}
+		l[0].FreeMemory, l[0].TotalMemory = 1<<30, 1<<30
+		return l
+	}
+	s.getGpuFn = s.getCpuFn
+	s.reschedDelay = 0
+	s.Run(ctx)
+	srv := &Server{sched: s}
+	kas := []*api.Duration{{Duration: 0}, {Duration: time.Minute}, nil}
+
+	ctx0 := newVfCtx()
+	_, _, _, err0 := srv.scheduleRunner(ctx0, "a", nil, map[string]any{}, kas[verifChoice(3)])
+	if err0 == nil {
+		ctx0.cancel()
+		return // only the failed first request is this job's subject
+	}
+	verifReach("first-request-failed")
+	verifHoldTimers(true)
+	verifQuiesce() // the runner that failed to load has been shut down
+	ctx1 := newVfCtx()
+	r1, _, _, err1 := srv.scheduleRunner(ctx1, "a", nil, map[string]any{}, kas[verifChoice(3)])
+	if err1 != nil {
+		ctx0.cancel()
+		ctx1.cancel()
+		return
+	}
+	holder, _ := r1.(*vfSrv)
+	holder.users++
+	verifReach("second-request-in-progress")
+	ctx0.cancel() // the failed request's caller goes away now
+	verifQuiesce()
+	verifAssert(holder.closing == 0, "runner-closed-while-a-request-uses-it")
+	s.loadedMu.Lock()
+	if r := s.loaded["/m/a"]; r != nil && r.llama == llm.LlamaServer(holder) {
+		r.refMu.Lock()
+		verifAssert(r.refCount == 1, "reference-count-equals-the-requests-in-progress")
+		r.refMu.Unlock()
+	} else {
+		verifAssert(false, "runner-in-use-is-registered")
+	}
+	s.loadedMu.Unlock()
+	verifHoldTimers(false)
+	holder.users--
+	ctx1.cancel()
+	verifQuiesce()
+	s.loadedMu.Lock()
+	verifAssert(len(s.loaded) == 0, "nothing-reported-loaded-after-drain")
+	s.loadedMu.Unlock()
+	for _, srv := range vfServers {
+		verifAssert(srv.closes == 1, "every-started-runner-shut-down-after-drain")
+	}
+	verifReach("drained")
+}
